@@ -232,6 +232,10 @@ SPEC = [
      (), False),
     ('to_dicts_result', 'eudoxia/executor/assignment.py', [('ExecutionResult', 'to_dict')], (), False),
     ('cli_run', 'eudoxia/__main__.py', [(None, 'run_command'), (None, 'gentrace_command')], (), False),
+    ('cli_main', 'eudoxia/__main__.py', [(None, 'main'), (None, 'mkregression_command'), (None, 'init_command')], (), False),
+    ('tools_cli', 'eudoxia/tools.py',
+     [(None, 'snap_command'), (None, 'jitter_command'), (None, 'sensitivity_command'), (None, '_sensitivity_task'),
+      (None, 'sensitivity_sample_command')], (), False),
     ('sched_wrapper', 'eudoxia/scheduler/scheduler.py', [('Scheduler', '__init__'), ('Scheduler', 'run_one_tick')],
      (), False),
     ('waiting_queue', 'eudoxia/scheduler/waiting_queue.py', [('WaitingQueueJob', '__init__')], ('RetryStats',), False),
